@@ -66,15 +66,14 @@ class SimpleCookieJar:
             if host.endswith(domain) or host == domain[1:]:
                 cookies.append(self.jar.get(domain))
 
-        return "; ".join(
-            filter(
-                None,
-                sorted(
-                    [
-                        f"{k}={v.value}"
-                        for cookie in filter(None, cookies)
-                        for k, v in cookie.items()
-                    ]
-                ),
-            )
+        # sorted by name; the value goes out in its quoted form so that it
+        # stays one cookie (and one header line) whatever it contains
+        pairs = sorted(
+            (
+                (k, v.coded_value)
+                for cookie in filter(None, cookies)
+                for k, v in cookie.items()
+            ),
+            key=lambda kv: kv[0],
         )
+        return "; ".join(f"{k}={value}" for k, value in pairs)
